@@ -516,8 +516,16 @@ Fixpoint run (sc : nat -> outcome) (members : addr -> list addr) (w : world) (es
 
 End WithQ.
 
+(* config/loader.py CacheConfiguration.caches: a cache gets one TileManager per grid; inside the loop over the grids
+   every manager gets the cache's refresh_before (mgr._refresh_before = conf.get('refresh_before', {})), so the rule
+   is in force for every grid of the cache.  `grids` lists, per grid, whether the manager has a meta grid. *)
+Definition cache_managers (rb : option rconf) (floor_store : bool) (grids : list bool) : list mgr :=
+  map (fun meta => mkMgr rb None meta floor_store 0 false) grids.
+
 (* ---- helpers for the correspondence check ------------------------------------------------------------- *)
 
+Definition thr_eqb (a b : thr) : bool :=
+  match a, b with ThrNone, ThrNone => true | ThrErr, ThrErr => true | ThrAt x, ThrAt y => Z.eqb x y | _, _ => false end.
 Definition optZ_eqb := opt_eqb Z.eqb.
 Definition optb_eqb := opt_eqb Bool.eqb.
 Definition err_eqb (a b : err) : bool :=
